@@ -3,6 +3,7 @@ package config
 import (
 	"errors"
 	"fmt"
+	"net/url"
 	"runtime"
 	"runtime/debug"
 	"time"
@@ -127,6 +128,14 @@ func Initialize() (*Config, error) {
 	masked.OpenID.ClientJWK = redacted
 	masked.OpenID.ClientSecret = redacted
 	masked.Redis.Password = redacted
+	if len(masked.Redis.URI) > 0 {
+		// the URI may carry the password as userinfo
+		if u, err := url.Parse(masked.Redis.URI); err != nil {
+			masked.Redis.URI = redacted
+		} else {
+			masked.Redis.URI = u.Redacted()
+		}
+	}
 	logger.Infof("config: %+v", masked)
 
 	if err := cfg.Validate(); err != nil {
